@@ -64,22 +64,24 @@ Print Assumptions C12_ecs_privacy.
 (* non-vacuity: an upstream reply with a cookie-laden OPT, a query with an ECS-laden OPT: the response's only OPT is
    the proxy's own *)
 (* ... and on a CACHING proxy (Router/Cached.v = the request path composed with cacheCtl.Get/Store and the prefetch):
-   in every state reachable by any history of requests, prefetches (for any question, client and upstream), clock
-   ticks, collections and evictions, the response to any query — fresh, relayed or SERVED FROM CACHE — carries exactly
-   the proxy's own OPT iff the query carried one.  (The cache invariant behind it: every cached message is OPT-free,
-   because only [forward]'s OPT-stripped result is ever stored.)  [ckey] is the cache key as a function of the
-   lower-cased question and the client (injective in the question: C07_cache_key_injective). *)
-Theorem C12_resp_opt_cached : forall matches rules ecs up ckey maxttl,
+   in every state reachable by any history of (decoded, hence well-formed) requests, prefetches (for any question,
+   client and upstream), clock ticks, collections and evictions, the response to any query — fresh, relayed or SERVED
+   FROM CACHE — carries exactly the proxy's own OPT iff the query carried one.  (The cache invariant behind it: every
+   cached message is what [forward] returned, hence OPT-free.)  The cache key is the real one: cacheKey(question,
+   ipMark(client)) read as a number ([real_ckey]; [mark] = the ip-marker lookup, any function to octet strings). *)
+Theorem C12_resp_opt_cached : forall matches rules ecs up (mark : addr -> list N) maxttl,
   (forall u w r, up u w = UReply r -> count_opt (m_ar r) <= 1) ->
-  (forall q1 c1 q2 c2, ckey q1 c1 = ckey q2 c2 -> q1 = q2) ->
+  (forall c, bytes (mark c)) ->
   forall (clk : N) (evs : list cev) (t ts eps : Z) (m : msg) (client : addr),
-  let st := fst (crun matches rules ecs up ckey maxttl (init_state clk) evs) in
-  filter is_opt (m_ar (co_resp (snd (handle_c matches rules ecs up ckey maxttl st t ts eps m client)))) =
+  Forall cev_wf evs -> wf_msg m ->
+  let st := fst (crun matches rules ecs up (real_ckey mark) maxttl (init_state clk) evs) in
+  filter is_opt (m_ar (co_resp (snd (handle_c matches rules ecs up (real_ckey mark) maxttl st t ts eps m client)))) =
   if unsupported m then [] else if has_opt m then [new_opt udp_size []] else [].
 Proof.
-  intros matches rules ecs up ckey maxttl H1 Hinj clk evs t ts eps m client st.
-  apply (handle_c_opt matches rules ecs up ckey maxttl H1 Hinj).
-  apply (crun_inv matches rules ecs up ckey maxttl H1 Hinj). apply cinv_init.
+  intros matches rules ecs up mark maxttl H1 Hm clk evs t ts eps m client Hev Hwm st.
+  pose proof (real_ckey_inj mark Hm) as Hinj.
+  apply (handle_c_opt matches rules ecs up (real_ckey mark) maxttl H1 Hinj); [|exact Hwm].
+  apply (crun_inv matches rules ecs up (real_ckey mark) maxttl H1 Hinj _ Hev). apply cinv_init.
 Qed.
 Print Assumptions C12_resp_opt_cached.
 
